@@ -28,6 +28,15 @@ Schedules ("schedule" key of the witness):
                    ordinary interleavings of producer, feeder, receive time-outs and the shutdown
                    signal; nothing inside toasty is modified.
 
+  slow_consumer    every item takes 1.3 s to process (harness-side sleep in the callback: "each_ms" of the witness' delay),
+                   longer than any time-out of the hand-off, with more items than workers + queue slots: the bounded
+                   queue stays full and the producer's blocking put has to sit through more than a second, again and
+                   again, while all workers are busy (slow samplers, big input images, a loaded machine).
+  slow_first_item  the first item each worker process handles takes 2.5 s ("first_ms": cold caches, a lazily imported
+                   library), all others are fast: the queue fills up behind the first items (transform: 85 items > 2 + 32
+                   slots; multi_tan: 8 inputs > 2 + 4) and the producer's put blocks for seconds once.
+                   Both are plain OS schedules of the real code; nothing is wrapped except the callback / PyramidIO.
+
 OBLIGATIONS (name — witness keys).  <s> in visit_leaves | transform | multi_tan | multi_wcs
   rt/<s>/every_item_once    — stage keys, missing, extra, duplicated
                               (multiset of processed items differs from the statement's item set;
@@ -40,7 +49,7 @@ OBLIGATIONS (name — witness keys).  <s> in visit_leaves | transform | multi_ta
                               an output file missing or unreadable)
   rt/<s>/returns            — stage keys, watchdog_s
   rt/<s>/raises             — stage keys, exception   (raised although nothing failed)
-  stage keys = stage, parallel, schedule, delay + for visit: kind, depth, accept, apex, coordsys;
+  stage keys = stage, parallel, schedule, delay, [progress: true = run with cli_progress=True and JPY_PARENT_PID set (C19)] + for visit: kind, depth, accept, apex, coordsys;
   transform: depth, present (positions having an input tile); multi_tan / multi_wcs: pieces
   ([y0,x0,h,w] of each input in the mosaic), bottom_up.
 
@@ -51,6 +60,8 @@ BOUNDS
             16*3); multi_tan 1..6 inputs, both storage parities; multi_wcs 2 and 3 inputs; forced
             schedules on all four stages, slow-flush schedules on visit, transform and multi_tan
             (multi_wcs: thorough only, a run lasts > 40 s).  Serial run of every case as well.
+            Slow-consumer / slow-first-item schedules: 3 visits (16 leaves x 1.3 s with 2 and 3 workers, 64 leaves with
+            a 2.5 s first item), transform depth 3 (85 items) and multi_tan with 8 inputs with a 2.5 s first item.
   thorough: ~2500 random visit shapes to depth 5, transform to depth 4 (341 items), more image
             collections, forced schedules for each worker count.
   Watchdog: 60 s (quick) / 120 s (thorough) per run; normal runs take 1-3 s (multi_wcs 10-25 s).
@@ -187,7 +198,13 @@ def read_events(logdir):
     return ev
 
 
+_FIRST_ITEM_DONE = {}       # pid -> True once this process has handled its first item of the current case
+
+
 def _delay_for(delay, key):
+    """Seconds the harness-side callback / read wrapper sleeps for item ``key``: a seeded jitter of up to base_ms, the extra
+    ms of the items listed in "slow", "each_ms" for every item (slow consumer) and "first_ms" for the first item that the
+    calling process handles in this case (slow start of every worker)."""
     if not delay:
         return 0.0
     r = random.Random(delay.get("seed", 0) * 7919 + key[0] * 1000003 + key[1] * 1009 + key[2])
@@ -195,6 +212,13 @@ def _delay_for(delay, key):
     for sn, sx, sy, ms in delay.get("slow", []):
         if (sn, sx, sy) == tuple(key):
             d += ms / 1000.0
+    d += delay.get("each_ms", 0.0) / 1000.0
+    if delay.get("first_ms"):
+        pid = os.getpid()
+        if not _FIRST_ITEM_DONE.get(pid):
+            _FIRST_ITEM_DONE.clear()
+            _FIRST_ITEM_DONE[pid] = True
+            d += delay["first_ms"] / 1000.0
     return d
 
 
@@ -295,17 +319,38 @@ class _Schedule(object):
         self.mp.Event, self.mp.Queue = self.real_Event, self.real_Queue
 
 
+def _progress(case):
+    """True when the case asks for the progress bar on terminal-like output (key "progress" of a case / witness)."""
+    return bool(case.get("progress"))
+
+
 def _guarded(case, logdir, body):
     import multiprocessing as mp
     sched = _Schedule(case["sched"]) if case.get("sched") else None
     before = set(p.pid for p in mp.active_children())      # leftovers of an earlier, failed case of this batch
     exc = None
+    # "progress": the stage is called with cli_progress=True (by its runner) in an environment whose output counts as
+    # terminal-like for toasty.progress: JPY_PARENT_PID set, as inside a Jupyter kernel (stdout itself is not a tty here).
+    # The bar (tqdm, on stderr) is sent to /dev/null; stdout is captured as always.
+    old_jpy = os.environ.get("JPY_PARENT_PID")
+    if _progress(case):
+        os.environ["JPY_PARENT_PID"] = "1"
+    else:
+        os.environ.pop("JPY_PARENT_PID", None)
     t0 = time.monotonic()
     try:
-        with contextlib.redirect_stdout(io.StringIO()):
+        with contextlib.ExitStack() as stack:
+            stack.enter_context(contextlib.redirect_stdout(io.StringIO()))
+            if _progress(case):
+                stack.enter_context(contextlib.redirect_stderr(stack.enter_context(open(os.devnull, "w"))))
             body()
     except Exception as e:
         exc = "%s: %s" % (type(e).__name__, e)
+    finally:
+        if old_jpy is None:
+            os.environ.pop("JPY_PARENT_PID", None)
+        else:
+            os.environ["JPY_PARENT_PID"] = old_jpy
     t1 = time.monotonic()
     alive = len([p for p in mp.active_children() if p.pid not in before])
     if sched:
@@ -327,6 +372,13 @@ def _logdir(case, name="log"):
     d = os.path.join(base, "%s_%s" % (name, case["id"]))
     os.makedirs(d, exist_ok=True)
     return d
+
+
+def _fail_input(case):
+    """Index of the input image that is made unreadable (its file removed) between the set-up of a multi-image tiling and
+    the call of ``tile``: key "input" of the fault description."""
+    f = case.get("fail")
+    return f["input"] if f and f.get("input") is not None else None
 
 
 def _fail_pos(case):
@@ -365,7 +417,7 @@ def _run_visit(case):
             time.sleep(d)
         log.write("E", key)
 
-    return _guarded(case, logdir, lambda: pyr.visit_leaves(cb, parallel=case["parallel"]))
+    return _guarded(case, logdir, lambda: pyr.visit_leaves(cb, parallel=case["parallel"], cli_progress=_progress(case)))
 
 
 def _run_walk(case):
@@ -386,7 +438,7 @@ def _run_walk(case):
             time.sleep(d)
         log.write("E", key)
 
-    return _guarded(case, logdir, lambda: pyr.walk(cb, parallel=case["parallel"]))
+    return _guarded(case, logdir, lambda: pyr.walk(cb, parallel=case["parallel"], cli_progress=_progress(case)))
 
 
 # ---- logging PyramidIO ----------------------------------------------------------------------
@@ -434,7 +486,7 @@ def _run_transform(case):
     for p in present:
         path = pio.tile_path(Pos(n=p[0], x=p[1], y=p[2]), format="npy")
         np.save(path, np.full((256, 256), _tile_value(p), dtype=np.uint8))
-    res = _guarded(case, logdir, lambda: transform.u8_to_rgb(pio, case["depth"], parallel=case["parallel"]))
+    res = _guarded(case, logdir, lambda: transform.u8_to_rgb(pio, case["depth"], parallel=case["parallel"], cli_progress=_progress(case)))
     # state of the disk when the stage returned (read right after; the 0.25 s pause is over)
     bad = []
     if not case.get("fail"):
@@ -553,13 +605,15 @@ def _run_multi_tan(case):
     os.makedirs(src, exist_ok=True)
     mos, paths = _write_tan_pieces(case, src)
 
-    def tile(outdir, log, parallel, fail_pos=None, delay=None):
+    def tile(outdir, log, parallel, fail_pos=None, delay=None, progress=False, lose_input=None):
         pio = make_logging_pio(outdir, "fits", log, delay, fail_pos, "R", case.get("fail"))
         b = builder.Builder(pio)
         proc = multi_tan.MultiTanProcessor(collection.load(paths))
         proc.compute_global_pixelization(b)
         holder["pio"], holder["level"] = pio, b.imgset.tile_levels
-        proc.tile(pio, parallel=parallel)
+        if lose_input is not None:
+            os.unlink(paths[lose_input])      # this input has become unreadable by the time the tiling starts
+        proc.tile(pio, parallel=parallel, cli_progress=progress)
 
     holder = {}
     # serial reference of the same input (the statement's item set)
@@ -573,7 +627,8 @@ def _run_multi_tan(case):
     else:
         ref = _guarded(ref_case, ref_logdir, lambda: tile(os.path.join(base, "ref_%s" % case["id"]), _Log(ref_logdir), 1))
         ref_big = _assemble(holder["pio"], holder["level"]) if ref["exception"] is None else None
-    res = _guarded(case, logdir, lambda: tile(os.path.join(base, "out_%s" % case["id"]), _Log(logdir), case["parallel"], _fail_pos(case), case.get("delay")))
+    res = _guarded(case, logdir, lambda: tile(os.path.join(base, "out_%s" % case["id"]), _Log(logdir), case["parallel"], _fail_pos(case), case.get("delay"),
+                                              _progress(case), _fail_input(case)))
     res["ref_events"] = ref["events"]
     res["ref_exception"] = ref["exception"]
     res["level"] = holder.get("level")
@@ -651,7 +706,9 @@ def _run_multi_wcs(case):
         proc = multi_wcs.MultiWcsProcessor(collection.load(paths))
         proc.compute_global_pixelization(b)
         holder["pio"], holder["level"] = pio, b.imgset.tile_levels
-        proc.tile(pio, make_reproject(active), parallel=parallel)
+        if active and _fail_input(case) is not None:
+            os.unlink(paths[_fail_input(case)])      # this input has become unreadable by the time the tiling starts
+        proc.tile(pio, make_reproject(active), parallel=parallel, cli_progress=active and _progress(case))
 
     ref_logdir = _logdir(case, "reflog")
     ref_case = dict(case)
@@ -680,6 +737,7 @@ def _run_multi_wcs(case):
 
 
 def stage_case(case):
+    _FIRST_ITEM_DONE.clear()
     return {"visit": _run_visit, "walk": _run_walk, "transform": _run_transform, "multi_tan": _run_multi_tan,
             "multi_wcs": _run_multi_wcs}[case["stage"]](case)
 
@@ -697,6 +755,8 @@ def witness_of(case, **extra):
          "sched": case.get("sched")}
     for k in _WKEYS[case["stage"]]:
         w[k] = case.get(k)
+    if _progress(case):
+        w["progress"] = True
     w.update(extra)
     return w
 
@@ -705,6 +765,8 @@ def case_from_witness(w):
     c = {k: w.get(k) for k in ("stage", "parallel", "schedule", "delay", "sched", "fail") + _WKEYS[w["stage"]]}
     if c.get("coordsys") is None and w["stage"] in ("visit", "walk"):
         c["coordsys"] = "astronomical"
+    if w.get("progress"):
+        c["progress"] = True
     return c
 
 
@@ -987,6 +1049,39 @@ def build_cases(rng, thorough):
                   "workers %s; forced last-put schedule (10 s worker time-out)%s" % (
                       "{2,3}" if thorough else "{2}", "; slow-flush schedule (last input takes 21 s to serialise)" if thorough else
                       "; NO slow-flush schedule in this tier (a run lasts > 40 s)"))
+    # ---------------- slow consumers: the bounded queue stays full for longer than any time-out of the hand-off
+    def slowc(case, **dkw):
+        c = dict(case)
+        c["delay"] = dict({"seed": 0, "base_ms": 0.0, "slow": []}, **dkw)
+        c["schedule"] = "slow_consumer" if "each_ms" in dkw else "slow_first_item"
+        c["alone"] = True
+        return c
+
+    full2 = Q.all_positions(2, 1)
+    slow = [slowc(_visit_case("g", 2, [], None, 2, None), each_ms=1300.0),
+            slowc(_visit_case("f", 2, full2, None, 3, None, "planetary"), each_ms=1300.0),
+            slowc(_visit_case("t", 3, [], None, 2, None), first_ms=2500.0)]
+    allp3 = Q.all_positions(3)
+    slow.append(slowc({"stage": "transform", "depth": 3, "present": [list(p) for p in allp3 if (p[1] + p[2]) % 2 == 0], "parallel": 2,
+                       "schedule": "os", "sched": None}, first_ms=2500.0))
+    eight = [[10 + 105 * (i // 4), 10 + 125 * (i % 4), 90, 110] for i in range(8)]
+    slow.append(slowc({"stage": "multi_tan", "pieces": eight, "mosaic": [420, 520], "seed": 21, "bottom_up": False, "parallel": 2,
+                       "schedule": "os", "sched": None}, first_ms=2500.0))
+    if thorough:
+        slow.append(slowc(_visit_case("t", 3, [], None, 16, None), each_ms=1300.0))
+        slow.append(slowc(_visit_case("g", 3, [], (1, 1, 0), 3, None), each_ms=1300.0))
+        slow.append(slowc(_visit_case("g", 4, [], None, 16, None), first_ms=2500.0))
+        slow.append(slowc({"stage": "transform", "depth": 3, "present": [list(p) for p in allp3 if p[0] == 3], "parallel": 3,
+                           "schedule": "os", "sched": None}, first_ms=3500.0))
+        slow.append(slowc({"stage": "multi_tan", "pieces": eight + [[220, 10, 150, 400]], "mosaic": [420, 520], "seed": 22, "bottom_up": True,
+                           "parallel": 3, "schedule": "os", "sched": None}, each_ms=1300.0))
+    cases.extend(slow)
+    bounds.append("slow consumers (%d cases): visit_leaves of 16 leaves with 2 and with 3 workers where every callback takes 1.3 s (more items "
+                  "than workers + 2*workers queue slots, each slower than the 1 s time-outs of the hand-off: the queue stays full and the "
+                  "producer's put waits > 1 s over and over); 64 leaves / transform of 85 tiles / multi_tan of 8 inputs with 2 workers whose "
+                  "first item takes 2.5 s (the queue fills behind them)%s" % (
+                      len(slow), "; 64 leaves x 1.3 s with 16 workers, 16-leaf sub-pyramid with 3, 256 leaves with 16 slow-starting workers, "
+                      "transform with 3, multi_tan of 9 inputs x 1.3 s per tile read" if thorough else ""))
     allc = long_cases + cases
     for i, c in enumerate(allc):
         c["id"] = i
@@ -1005,7 +1100,7 @@ def _n_items(case):
 
 def _case_key(c):
     import json
-    return json.dumps({k: v for k, v in c.items() if k not in ("id", "_dir")}, sort_keys=True, default=str)
+    return json.dumps({k: v for k, v in c.items() if k not in ("id", "_dir", "alone")}, sort_keys=True, default=str)
 
 
 def run(ctx):
@@ -1053,8 +1148,11 @@ def run(ctx):
     short = cases + extra_serial
     bs = 8
     batches = [[dict(c)] for c in long_cases]
-    heavy = [c for c in short if c["stage"] == "multi_tan" or c.get("sched")]
-    light = [c for c in short if not (c["stage"] == "multi_tan" or c.get("sched"))]
+    alone = [c for c in short if c.get("alone")]          # slow-consumer cases: seconds of sleeping each, one interpreter per case
+    short_rest = [c for c in short if not c.get("alone")]
+    batches += [[dict(c)] for c in alone]
+    heavy = [c for c in short_rest if c["stage"] == "multi_tan" or c.get("sched")]
+    light = [c for c in short_rest if not (c["stage"] == "multi_tan" or c.get("sched"))]
     batches += [[dict(c) for c in heavy[i:i + 3]] for i in range(0, len(heavy), 3)]
     batches += [[dict(c) for c in light[i:i + bs]] for i in range(0, len(light), bs)]
     results = B.dispatch("rt.c03", "stage_case", None, os.path.join(ctx.workdir, "par"), watchdog, batch_size=bs, max_workers=24,
